@@ -82,3 +82,46 @@ V('c17-fix-add-subcomponent', 'C17', 'hl7apy/core.py',
   "        if self.is_unknown() and is_base_datatype(self.datatype):",
   "        if self.is_unknown() and is_base_datatype(self.datatype, self.version):",
   expect='fixed:core.Component.add_subcomponent')
+
+# ---------------------------------------------------------------- C18
+V('c18-parse-segments-drops-ref', 'C18', 'hl7apy/parser.py',
+  "                        segment = parse_segment(s.strip(), version, encoding_chars, validation_level, ref)",
+  "                        segment = parse_segment(s.strip(), version, encoding_chars, validation_level)", rule='C18-F')
+V('c18-parse-segment-drops-references', 'C18', 'hl7apy/parser.py',
+  "    segment.children = parse_fields(text, segment_name, version, encoding_chars, validation_level,\n                                    segment.structure_by_name, segment.allow_infinite_children)",
+  "    segment.children = parse_fields(text, segment_name, version, encoding_chars, validation_level,\n                                    force_varies=segment.allow_infinite_children)", rule='C18-F')
+V('c18-parse-fields-drops-reference', 'C18', 'hl7apy/parser.py',
+  "                    fields.append(parse_field(rep, name, version, encoding_chars, validation_level,\n                                              reference, force_varies))",
+  "                    fields.append(parse_field(rep, name, version, encoding_chars, validation_level,\n                                              force_varies=force_varies))", rule='C18-F')
+V('c18-create-element-drops-ref', 'C18', 'hl7apy/core.py',
+  "            kwargs = {'reference': reference['ref'],\n                      'validation_level'",
+  "            kwargs = {'validation_level'", rule='C18-F')
+V('c18-group-parse-child-drops-ref', 'C18', 'hl7apy/core.py',
+  "            g = Group(child_name, validation_level=self.validation_level, version=self.version,\n                      reference=ref['ref'])",
+  "            g = Group(child_name, validation_level=self.validation_level, version=self.version)", rule='C18-F')
+V('c18-group-creation-drops-ref', 'C18', 'hl7apy/parser.py',
+  "                                group = Group(p_ref[0], version=version, reference=p_ref[1],\n                                              validation_level=validation_level)",
+  "                                group = Group(p_ref[0], version=version,\n                                              validation_level=validation_level)", rule='C18-F')
+V('c18-message-drops-profile', 'C18', 'hl7apy/parser.py',
+  "        m = Message(name=message_structure, reference=reference, version=version,\n                    validation_level=validation_level, encoding_chars=encoding_chars)",
+  "        m = Message(name=message_structure, version=version,\n                    validation_level=validation_level, encoding_chars=encoding_chars)", rule='C18-F')
+V('c18-validate-ignores-reference', 'C18', 'hl7apy/core.py',
+  "        return Validator.validate(self, reference=self.reference, report_file=report_file, return_errors=return_errors)",
+  "        return Validator.validate(self, report_file=report_file, return_errors=return_errors)", rule='C18-V')
+V('c18-force-validation-standard', 'C18', 'hl7apy/parser.py',
+  "            Validator.validate(m, message_profile[message_structure], report_file=report_file)",
+  "            Validator.validate(m, report_file=report_file)", rule='C18-V')
+V('c18-validator-recursion-standard', 'C18', 'hl7apy/validation.py',
+  "                            _is_valid(c, child_ref[1], errs, warns)", "                            _is_valid(c, None, errs, warns)",
+  rule='C18-V')
+V('c18-keyerror-unmapped', 'C18', 'hl7apy/parser.py',
+  "    try:\n        reference = message_profile[message_structure] if message_profile else None\n    except KeyError:\n        raise MessageProfileNotFound()",
+  "    reference = message_profile.get(message_structure) if message_profile else None", rule='C18-S')
+V('c18-fix-legacy', 'C18', 'hl7apy/parser.py',
+  "        reference = message_profile[message_structure] if message_profile else None\n    except KeyError:",
+  "        reference = message_profile[message_structure] if message_profile else None\n        if reference is not None and reference[0] == 'mp':\n            raise LegacyMessageProfile()\n    except KeyError:",
+  expect='fixed:C18-S|parser.parse_message|legacy')
+V('c18-fix-find-groups', 'C18', 'hl7apy/parser.py',
+  "                    segment = parse_segment(s.strip(), version, encoding_chars, validation_level)\n                    segments.append(segment)",
+  "                    segment = parse_segment(s.strip(), version, encoding_chars, validation_level,\n                                            _flat_reference(references, segment_name))\n                    segments.append(segment)",
+  expect='fixed:C18-F|parser.parse_segments')
